@@ -1593,7 +1593,7 @@ pub fn gen(ctx: &Ctx, emit: &mut dyn FnMut(String)) {
     }
 
     // ---- F. random tables: structured-valid (~70 %), boundary / malformed (~30 %)
-    let n = ctx.n(14_000, 300_000);
+    let n = ctx.n(14_000, 120_000);
     for k in 0..n {
         let valid = k % 10 < 7;
         let line = g_table(&mut rng, valid);
